@@ -262,3 +262,66 @@ func VerifC08LenientForms() {
 }
 
 var c08Digits = []string{"0", "1", "2"}
+
+var c08CommentBases = []string{
+	"a := 1 + 2",
+	"if a { b } else { c }",
+	"for a in range(1, 2) { b }",
+	"func f(a, b=1) { return a + 1 }",
+	"try { a } except \"E\" as e { b } finally { c }",
+	"a := [1, 2]",
+	"a := {\"k\" : 1}",
+	"f(1, 2).b[0] := x",
+	"let a := not b",
+	"mutex m { a := 1 }",
+	"import \"a/b\" as c",
+	"sink s kindmatch [\"a\"], priority 1 { a }",
+}
+var c08CommentForms = []string{"/* c */", "# c\n", "/* c */\n", "\n", "/* a */ /* b */", "# a\n# b\n", "\n\n/* c */\n\n"}
+
+func c08Fields(s string) []string {
+	var out []string
+	cur := ""
+	for i := 0; i < len(s); i++ {
+		if s[i] == ' ' {
+			if cur != "" {
+				out = append(out, cur)
+			}
+			cur = ""
+		} else {
+			cur += s[i : i+1]
+		}
+	}
+	if cur != "" {
+		out = append(out, cur)
+	}
+	return out
+}
+
+// VerifC08Comments: a comment (block, line, with and without line breaks, two in a row) or a bare line break inserted at
+// a symbolic token boundary of every statement kind: whatever parses prints to text that parses to the same tree up to
+// comments, and printing is idempotent.  (Comments may be dropped or moved - they are outside the comparison - but they
+// must not change the tree or make the printer oscillate.)
+func VerifC08Comments() {
+	b := zz.Choice("base", len(c08CommentBases))
+	toks := c08Fields(c08CommentBases[b])
+	pos := zz.Choice("position", len(toks)+1)
+	form := zz.Choice("comment", len(c08CommentForms))
+	src := ""
+	for i, t := range toks {
+		if i == pos {
+			src += c08CommentForms[form] + " "
+		}
+		src += t + " "
+	}
+	if pos == len(toks) {
+		src += c08CommentForms[form]
+	}
+	// listed known findings: the printer places the comments of nodes INSIDE a statement without regard to what follows on
+	// the line (a '#' comment swallows the rest of the statement, a block comment splits it, layouts oscillate); two block
+	// comments before a statement swap places on every run
+	inside := pos != 0 && pos != len(toks)
+	zz.Known("C08-comment-inside-a-statement-breaks-the-printed-text", "C08.", inside)
+	zz.Known("C08-two-block-comments-before-a-statement-swap", "C08.printing-is-idempotent", pos == 0 && form == 4)
+	c08RoundTrip(src)
+}
